@@ -184,6 +184,7 @@ func (fr *Frame) call(st *State, instr ssa.Instruction, c *ssa.CallCommon, v ssa
 	fr.assertAt(st, name, args, instr.Pos())
 	fr.countCall(st, name)
 	setResult := func(r []Val) {
+		vc.lastRet[name] = r
 		if v == nil {
 			return
 		}
@@ -216,6 +217,9 @@ func (fr *Frame) call(st *State, instr ssa.Instruction, c *ssa.CallCommon, v ssa
 		}
 		if k := externalKind(callee); k != "" {
 			fr.externalCall(st, callee, k, c, args, v)
+			if v != nil {
+				fr.recordRet(name, v)
+			}
 			return true
 		}
 	} else if tc := vc.eng.typeContract(c); tc != nil {
@@ -235,8 +239,19 @@ func (fr *Frame) call(st *State, instr ssa.Instruction, c *ssa.CallCommon, v ssa
 	vc.havocAll(st, name)
 	if v != nil {
 		fr.havocVal(st, v)
+		fr.recordRet(name, v)
 	}
 	return true
+}
+
+// recordRet remembers the results of the latest call to name (for ret() in contracts).
+func (fr *Frame) recordRet(name string, v ssa.Value) {
+	r := fr.vals[v]
+	if r.Tuple != nil {
+		fr.vc.lastRet[name] = r.Tuple
+	} else {
+		fr.vc.lastRet[name] = []Val{r}
+	}
 }
 
 // assertAt checks the `assert-at callee expr` clauses of the function under verification.
@@ -831,17 +846,27 @@ func (fr *Frame) externalCall(st *State, callee *ssa.Function, kind string, c *s
 	if externalDeterministic(callee) && kind == "pure" {
 		scalar := true
 		var sorts, terms []string
+		variadic := ""
 		for i, a := range c.Args {
 			switch a.Type().Underlying().(type) {
 			case *types.Basic:
 				sorts = append(sorts, vc.sortOf(a.Type()))
 				terms = append(terms, args[i].T)
 			default:
-				scalar = false
+				// a literal variadic argument list f(a, b, c...) of scalars is expanded
+				if elems, ok := fr.varargElems(st, a); ok && i == len(c.Args)-1 {
+					for _, e := range elems {
+						sorts = append(sorts, vc.sortOf(e.Ty))
+						terms = append(terms, e.T)
+					}
+					variadic = fmt.Sprintf("_v%d", len(elems))
+				} else {
+					scalar = false
+				}
 			}
 		}
 		if scalar {
-			fname := "ext_" + sanitize(callee.Object().Pkg().Name()+"_"+callee.Name())
+			fname := "ext_" + sanitize(callee.Object().Pkg().Name()+"_"+callee.Name()) + variadic
 			mk := func(suffix string, rt types.Type) Val {
 				fn := fname + suffix
 				vc.decl("fun:"+fn, fmt.Sprintf("(declare-fun %s (%s) %s)", fn, strings.Join(sorts, " "), vc.sortOf(rt)))
@@ -892,11 +917,24 @@ func (fr *Frame) externalFacts(st *State, callee *ssa.Function, args []Val, v ss
 			vc.assume(fmt.Sprintf("(and (<= 0 %s) (<= %s 4) (<= %s %s) (=> (> %s 0) (>= %s 1)))", size, size, size, n, n, size))
 			vc.note("assumed contract utf8.DecodeRune*: 0<=size<=4, size<=len, size>=1 when len>0")
 		}
+	case "errors.New":
+		vc.assume("(not (= (i.tag " + r.T + ") 0))")
+		vc.note("assumed contract errors.New/fmt.Errorf: the result is a non-nil error")
 	case "fmt.Sprintf", "fmt.Errorf":
+		if full == "fmt.Errorf" {
+			vc.assume("(not (= (i.tag " + r.T + ") 0))")
+			vc.note("assumed contract errors.New/fmt.Errorf: the result is a non-nil error")
+		}
 		// a format that starts with literal text yields a non-empty result
 		if c, ok := fr.argConst(v, 0); ok && len(c) > 0 && c[0] != '%' && full == "fmt.Sprintf" {
 			vc.assume("(>= " + vc.slenOf(r.T) + " 1)")
 			vc.note("assumed contract fmt.Sprintf: a format beginning with literal text yields a non-empty string")
+		}
+	case "path/filepath.EvalSymlinks":
+		if len(r.Tuple) == 2 {
+			vc.decl("fun:uf_isRealPath", "(declare-fun uf_isRealPath ("+vc.strSort()+") Bool)")
+			vc.assume(smtImp(smtEq(r.Tuple[1].T, "(mk-iface 0 nil)"), "(uf_isRealPath "+r.Tuple[0].T+")"))
+			vc.note("assumed contract filepath.EvalSymlinks: a successful result is a link-free real path (isRealPath)")
 		}
 	case "strings.HasPrefix":
 		if vc.smtStr {
@@ -1187,4 +1225,35 @@ func (fr *Frame) argConst(v ssa.Value, i int) (string, bool) {
 		return "", false
 	}
 	return constant.StringVal(c.Value), true
+}
+
+// varargElems recognises the SSA shape of a literal variadic argument list
+// (slice of a fresh [N]T array filled by stores in the same block) and returns
+// the element values.
+func (fr *Frame) varargElems(st *State, a ssa.Value) ([]Val, bool) {
+	vc := fr.vc
+	if c, ok := a.(*ssa.Const); ok && c.Value == nil {
+		return nil, true // f(x) with no variadic arguments
+	}
+	sl, ok := a.(*ssa.Slice)
+	if !ok || sl.Low != nil || sl.High != nil {
+		return nil, false
+	}
+	al, ok := sl.X.(*ssa.Alloc)
+	if !ok || al.Comment != "varargs" {
+		return nil, false
+	}
+	arr, ok := al.Type().Underlying().(*types.Pointer).Elem().Underlying().(*types.Array)
+	if !ok || arr.Len() > 6 {
+		return nil, false
+	}
+	if _, isBasic := arr.Elem().Underlying().(*types.Basic); !isBasic {
+		return nil, false
+	}
+	base := fr.val(al).T
+	var out []Val
+	for k := int64(0); k < arr.Len(); k++ {
+		out = append(out, Val{T: vc.loadAt(st, vc.elemRef(base, fmt.Sprint(k)), arr.Elem()), Ty: arr.Elem()})
+	}
+	return out, true
 }
